@@ -295,6 +295,84 @@ end
 
 def b2s (b : Bool) : String := if b then "1" else "0"
 
+/-! ### why a case lies outside the proved fragment (named as in known-findings.txt) -/
+
+def ifNot (c : Bool) (r : String) : List String := if c then [] else [r]
+
+mutual
+partial def reasons (top spine : Bool) : S → List String
+  | .str cks => ifNot (strLenOK cks) "str-length-overwrites" ++ ifNot (noTrim cks) "str-trim-before-check"
+  | .int k cks => ifNot (intKindOK top k cks) "int-kind-range-missing" ++ numReasons cks
+  | .flt cks => numReasons cks
+  | .enum vs => ifNot (!vs.isEmpty) "empty-enum"
+  | .lit vs => ifNot (litHomog vs) "literal-mixed-kinds"
+  | .opt s => ifNot s.docNullable "optional-accepts-null" ++ reasons top spine s
+  | .nul s => reasons top spine s
+  | .obj mode ca part cks shape =>
+      (match mode with | .strip => ifNot spine "nested-strip-object" | _ => [])
+      ++ ifNot (!part) "partial-keeps-required"
+      ++ (match mode, ca with | .strict, .some _ => ["strict-ignores-catchall"] | _, _ => [])
+      ++ ifNot (szSimple cks) "size-check-overwrites"
+      ++ (match mode, ca with | .strip, .some _ => ifNot cks.isEmpty "strip-size-after-strip" | _, _ => [])
+      ++ reasonsCa ca ++ reasonsShape shape
+  | .slice e cks => ifNot (szSimple cks) "size-check-overwrites" ++ reasons false false e
+  | .arr rest cks items =>
+      ifNot cks.isEmpty "array-length-keyword"
+      ++ (match rest with
+          | .none => ifNot (items.length != 1) "array-single-item"
+          | .some _ => ifNot (items.length == 0) "rest-without-min-items")
+      ++ reasonsCa rest ++ reasonsList items
+  | .tup rest cks items =>
+      ifNot cks.isEmpty "array-length-keyword"
+      ++ (match rest with
+          | .none => []
+          | .some _ => ifNot (reqCount items == 0) "rest-without-min-items")
+      ++ reasonsCa rest ++ reasonsList items
+  | .record key val cks =>
+      (match key with
+       | .enum _ => ["record-enum-exhaustive"]
+       | .str _ => []
+       | _ => ["record-key-kind"])
+      ++ reasons false false key ++ ifNot (szSimple cks) "size-check-overwrites" ++ reasons false false val
+  | .union ms => reasonsMembers ms
+  | .xor ms => reasonsMembers ms
+  | .and l r =>
+      ifNot (!l.acceptsNull && !r.acceptsNull) "union-nil-member"
+      ++ ifNot (!l.isStrictObj && !r.isStrictObj) "intersection-strict-objects"
+      ++ reasons false false l ++ reasons false false r
+  | _ => []
+
+partial def numReasons (cks : List NumCk) : List String :=
+  ifNot (numFoldOK {} cks) "num-bound-merge"
+
+partial def reasonsCa : SOpt → List String
+  | .none => []
+  | .some s => reasons false false s
+
+partial def reasonsList : SList → List String
+  | .nil => []
+  | .cons s ss => reasons false false s ++ reasonsList ss
+
+partial def reasonsMembers : SList → List String
+  | .nil => []
+  | .cons s ss => ifNot (!s.acceptsNull) "union-nil-member" ++ reasons false false s ++ reasonsMembers ss
+
+partial def reasonsShape : Shape → List String
+  | .nil => []
+  | .cons _ s rest => reasons false false s ++ reasonsShape rest
+end
+
+mutual
+partial def instReasons : Json → List String
+  | .num q => ifNot (decide (-(2 ^ 53) < q) && decide (q < 2 ^ 53)) "big-number"
+  | .str s => ifNot (asciiStr s) "non-ascii-string"
+  | .arr xs => (xs.toList.map instReasons).flatten
+  | .obj fs => (fs.toList.map (fun kv => ifNot (asciiStr kv.1) "non-ascii-string" ++ instReasons kv.2)).flatten
+  | _ => []
+end
+
+def dedup (xs : List String) : List String := xs.foldl (fun acc x => if acc.contains x then acc else acc ++ [x]) []
+
 def handle : List String → String
   | "doc" :: ts =>
     match pS ts with
@@ -307,7 +385,11 @@ def handle : List String → String
       | some (x, []) =>
         let j := toDoc s
         let p := accepts s x
+        let rs := dedup (reasons true true s ++ instReasons x)
+        -- self-check: the itemised reasons are empty exactly when the theorem's hypotheses hold
+        let coherent := (rs.isEmpty == (repr true s && instOK x))
         b2s p ++ " " ++ (if p then b2s (jsValid j (out s x)) else "-") ++ " " ++ b2s (jsValid j x)
+          ++ "\t" ++ (if coherent then "" else "INCOHERENT,") ++ ",".intercalate rs
       | _ => "bad-op"
     | none => "bad-op"
   | _ => "bad-op"
